@@ -225,3 +225,14 @@ def run(ctx, rep):
     for v in r2.violations:
         if v["instance"].startswith("role:"):
             rep.ob("R5", v["instance"], False, v["detail"], v["site"], key="R5:" + v["instance"])
+    # the same holds for the cost pre-pass: within a date all capital returns / accumulations are applied before that date's
+    # purchases join the tracked lots; walked line by line, a purchase written above the event line would absorb part of the
+    # adjustment and one written below it would not (shared with C11-R3; seeded change C06-s3)
+    import rules.c11 as c11
+    r3 = Report("tmp")
+    appo = c11.adjustments(R, r3)
+    if appo:
+        c11.order_and_who(R, r3, appo)
+    for o in r3.obligations:
+        if o["instance"].startswith("prepass:adjust"):
+            rep.ob("R5", o["instance"], o["ok"], o["detail"], o["site"], key="R5:" + o["instance"])
